@@ -240,7 +240,14 @@ def check(ctx):
     ctx.require(any(n.endswith("Streams::compactify") for n in names) and any(n.endswith("StreamMaps::compactify") for n in names), "R-MUST", "stub:compactify-both", "both streams and stream maps are compactified", "compactify_streams no longer covers both streams and stream maps")
     for nm in ("streams_variables::Streams::meet_scope_end", "stream_maps_variables::StreamMaps::meet_scope_end"):
         f = F.fn(nm)
-        ctx.require(any(c.path.endswith("::compactify") for c in f.calls), "R-MUST", "stub:scope-end:" + nm.split("::")[-2], "restricted stream compactified at scope end", "%s no longer compactifies the restricted stream" % nm)
+        # what is compactified is the instance being dropped — the descriptor popped from the name's scope stack — and the
+        # result of that call is what the function returns (a collection-level compactify only sees what is left)
+        fp_ = Prov(f)
+        cps = [c for c in f.calls if c.path.endswith(("Stream::compactify", "StreamMap::compactify"))]
+        okp = len(cps) == 1 and any(x[0] == "call" and x[1].endswith("Vec::pop") for x in walk(fp_.operand(cps[0].args[0]))) and lib.returns_call_result(f, cps[0])
+        ctx.require(okp, "R-MUST", "stub:scope-end:" + nm.split("::")[-2], "the popped (restricted) instance itself is compactified at scope end and its result returned",
+                    "%s no longer compactifies the instance it pops from the scope stack (compactify calls: %s): the generations recorded for values of a `new`-restricted %s keep the placeholder"
+                    % (nm, [c.path.split("::")[-2] + "::" + c.path.split("::")[-1] for c in f.calls if c.path.endswith("::compactify")], "stream map" if "maps" in nm else "stream"))
     # 4. update_generation
     ug = F.fn("handler::TraceHandler::update_generation")
     rows = {}
